@@ -207,6 +207,8 @@ func runC16(cases string, res *Result) {
 	c16CompileAfterChange(res)
 	c16FilesOfTemplatesRegisteredUnderOtherNames(cases, res)
 	c16FilesThatArriveLater(cases, res)
+	c16RelativeNamesSurvive(cases, res)
+	c15LoadedAheadOfTime(cases, res)
 	twig.SetDebugWriter(io.Discard) // SetDebug(true) on one engine switches the package-wide logger on
 	dir := filepath.Join(filepath.Dir(cases), "files")
 	os.RemoveAll(dir)
